@@ -272,7 +272,7 @@ class bspline(object):
                 for i in range(1, self.npoly):
                     temppoly[:, i] = temppoly[:, i-1] * x2norm
             elif self.funcname == 'poly1':
-                temppoly = np.tile(x2norm, self.npoly).reshape(nx, self.npoly)
+                temppoly = np.tile(x2norm, self.npoly).reshape(self.npoly, nx).T.copy()
                 for i in range(1, self.npoly):
                     temppoly[:, i] = temppoly[:, i-1] * x2norm
             elif self.funcname == 'chebyshev':
